@@ -773,7 +773,7 @@ def run_corpus_case(ck, env, c, use_model):
 
 def main():
     ck = vlib.Check(PROP, pkg="srtm", props="Proofs.Props.C20", driver="drv_c20",
-                    lemma_files=["Proofs/Lemmas/Arith.lean", "Proofs/Lemmas/Lists.lean", "Proofs/Lemmas/Mosaic.lean"],
+                    lemma_files=["Proofs/Lemmas/Arith.lean", "Proofs/Lemmas/Lists.lean", "Proofs/Lemmas/Mosaic.lean", "Proofs/Lemmas/Elev.lean"],
                     model_files=["Model/Srtm.lean"],
                     trusted=["hand-written exact-rational model Model/Srtm.lean tied to typhon/topography.py by the correspondence run of this check "
                              "(driver drv_c20: same rectangles as exact binary fractions; rows/cols, tile lists, the whole mosaic array and the download sequence are compared)",
